@@ -162,7 +162,9 @@ func (a *FuncAction) Exec(ctx context.Context, bs Bindings, props StepProps) (*E
 
 	exe, err := a.F(ctx, bs, props)
 
-	if Exp_PermanentBindings {
+	if Exp_PermanentBindings && exe != nil && exe.Bs != nil {
+		// No Execution (the action failed) or no Bindings (a
+		// guard said no): nothing to restore into.
 		for p, v := range permanent {
 			exe.Bs[p] = v
 		}
